@@ -1039,7 +1039,14 @@ func (x *Exec) step(st *State, f *Frame, ins ssa.Instruction) []*State {
 			st.frames[len(st.frames)-1].noAdv = true
 			return nil
 		}
-	case *ssa.Go, *ssa.Select, *ssa.Send, *ssa.MakeMap, *ssa.MakeChan, *ssa.MapUpdate, *ssa.Lookup, *ssa.Range, *ssa.Next:
+	case *ssa.MakeChan:
+		// a channel is an opaque object; only creating it (typically in an initialiser) is modelled: any send / receive / select fails
+		o := x.newObj(st, "chan@"+x.pos(in.Pos()), "Fresh", in.Type().String(), []Val{W{x.d.ConstI(64, 0)}})
+		f.loc[in] = P{obj: o.id}
+	case *ssa.Go:
+		// starting a goroutine (a helper started by an initialiser): the sequential model does not run it
+		x.stubs["go statement (goroutine not run): "+in.Common().String()] = true
+	case *ssa.Select, *ssa.Send, *ssa.MakeMap, *ssa.MapUpdate, *ssa.Lookup, *ssa.Range, *ssa.Next:
 		x.fail("unsupported instruction %T: %s", ins, ins)
 	default:
 		x.fail("unsupported instruction %T: %s", ins, ins)
